@@ -209,6 +209,11 @@ def mpint_sign(ctx, report):
         return
     report.touch(f)
     cons = f.construct
+    # decided by evaluating the whole composer / parser pipeline against RFC 4251 section 5 (sign octet, length, order of the
+    # pieces, for every boundary bit length); the reading of the sign decision off the source is the fallback
+    from .c11 import mpint_pipeline
+    if mpint_pipeline(ctx, report, rule='C07.R5', signs=(1, -1), quiet_fallback=True):
+        return
     decision = None
     for n in ast.walk(f.node):
         if isinstance(n, ast.If) and 'mpint_bytes' in ast.unparse(n.test):
@@ -260,9 +265,8 @@ def mpint_sign(ctx, report):
     report.count('C07.R5')
     if g is None or '>= 128' not in ast.unparse(g.node):
         report.add('C07.R5', (g.construct if g else 'ParserBinary.parse_ssh_mpint') + '@sign', 'parser does not take the sign from the top bit of the first byte')
-    # the whole composer / parser pipeline tabulated against RFC 4251 section 5 for the non-negative key parameters
-    from .c11 import mpint_pipeline
-    mpint_pipeline(ctx, report, rule='C07.R5', signs=(1,))
+    # (the pipeline left the evaluable subset: report that too, so that the fallback is not mistaken for the full decision)
+    mpint_pipeline(ctx, report, rule='C07.R5', signs=(1, -1))
 
 
 # ---- R6 ---------------------------------------------------------------------------------------------------------
